@@ -384,6 +384,10 @@ def oracle(case, res, hist):
                     if parts[-1] == "bad":
                         V.append(v("unserialisable-on-wire", d, t))
                     continue
+                if not parts[3].isdigit():
+                    # garbage between the token brackets: the stream itself is damaged (reported by the frame rules)
+                    V.append(v("garbled-token-on-wire", d, repr(t)[:80]))
+                    continue
                 snd, k = parts[2], int(parts[3])
                 if last.get(snd, -1) >= k:
                     V.append(v("sender-order", d, f"{t} after k={last[snd]} on channel id {chid}"))
